@@ -712,7 +712,7 @@ RECIPES += [
     # bypasses of the fit under a test that does not bound the off-diagonal terms
     ("C14", "break", ["C14-R5"], N, LSTSQ, _bypass("np.allclose(np.diag(T), 1.0)"), "rbcoords: fit skipped on a unit diagonal within allclose's tolerance (round-3 seed F)"),
     ("C14", "break", ["C14-R5"], N, LSTSQ, _bypass("abs(np.trace(T) - 3.0) < 1e-6"), "rbcoords: fit skipped when the trace is 3 within 1e-6"),
-    ("C14", "break", ["C14-R5"], N, LSTSQ, _bypass("np.allclose(np.abs(np.diag(T)), 1.0, rtol=0, atol=1e-12)"), "rbcoords: fit skipped on |diagonal| = 1 within 1e-12 (half turns; tilts up to 1e-6)"),
+    ("C14", "break", ["C14-R5"], N, LSTSQ, _bypass("np.allclose(np.abs(np.diag(T)), 1.0, rtol=0, atol=1e-12)"), "rbcoords: fit skipped on |diagonal| = 1 within 1e-12 (half turns)"),
     ("C14", "break", ["C14-R5"], N, LSTSQ, _bypass("T[0, 0] > 0.999999 and T[1, 1] > 0.999999 and T[2, 2] > 0.999999"), "rbcoords: fit skipped when every diagonal term exceeds 0.999999"),
     ("C14", "break", ["C14-R5"], N, LSTSQ, _bypass("np.isclose(T.diagonal().sum(), 3.0)"), "rbcoords: fit skipped on isclose(sum of the diagonal, 3)"),
     ("C14", "break", ["C14-R5"], N, LSTSQ, _bypass("np.allclose(T, np.eye(3), atol=1e-3)"), "rbcoords: fit skipped when the block is the identity within 1e-3 (bounded, but by 0.1 % of the distance)"),
@@ -733,6 +733,8 @@ RECIPES += [
     ("C14", "neutral", [], N, LSTSQ, _bypass("np.array_equal(T, np.eye(3))"), "rbcoords: fit skipped when the block is exactly the identity"),
     ("C14", "neutral", [], N, LSTSQ, _bypass("(T == np.eye(3)).all()"), "rbcoords: fit skipped on an exact element-wise identity test"),
     ("C14", "neutral", [], N, LSTSQ, _bypass("np.allclose(T, np.eye(3), rtol=0.0, atol=1e-14)"), "rbcoords: fit skipped when every term of the block is within 1e-14 of the identity"),
+    ("C14", "neutral", [], N, LSTSQ, _bypass("np.allclose(T, np.eye(3), rtol=0.0, atol=1e-7)"), "rbcoords: fit skipped when every term of the block is within 1e-7 of the identity (off-diagonal terms bounded)"),
+    ("C14", "break", ["C14-R5"], N, LSTSQ, _bypass("np.allclose(np.diag(T), 1.0, rtol=0.0, atol=1e-10)"), "rbcoords: fit skipped on a unit diagonal within 1e-10 (tilts up to 1.4e-5)"),
     ("C14", "neutral", [], N, LSTSQ, _bypass("not (T - np.diag(np.diag(T))).any() and (np.diag(T) == 1).all()"), "rbcoords: off-diagonal terms tested to be zero, diagonal to be one"),
     ("C14", "neutral", [], N, LSTSQ, f"        R = np.linalg.lstsq(T, {RHS}, rcond=None)[0]\n", "rbcoords: numpy's lstsq"),
     ("C14", "neutral", [], N, LSTSQ, f"        R, *_ = linalg.lstsq(T, {RHS}, check_finite=False)\n", "rbcoords: star unpacking of the lstsq result"),
